@@ -23,4 +23,6 @@ def run(tier):
     wave2.poll_every_round_rule(run, f, "C20-POLL-EVERY-ROUND")
     # clauses added for the wave-2 seeds (rules/wave2.py; DESIGN 12a)
     wave3.fresh_events_rule(run, f, "C20-FRESH-EVENTS")
+    # clauses added for the wave-2 seeds (rules/wave2.py; DESIGN 12a)
+    wave3.wait_in_syscall_rule(run, f, "C20-WAIT-IN-SYSCALL")
     return run.finish()
